@@ -488,7 +488,7 @@ class ExprMixin:
             items = seq_concat(*[seq_unit(self.comp1(v, ek)) for v in vs]) if vs else seq_empty(f"(Seq {elem_sort(ek)})")
             s3, lst = self.new_list(s2, ek, items)
             lst.static_items = list(vs)
-            lst.static_heap = s3.heap[self._seq_key(ek)[0]]
+            lst.static_heap = s3.heap[self._seq_key(ek, "list")[0]]
             return k(s3, lst)
         return self.ev_list(st, e.elts, got)
 
